@@ -243,3 +243,8 @@ EXPLANATION = "under construction"
 ASSUMPTIONS = []
 TRUSTED = []
 BOUNDED = [{"name": "dump-parse-roundtrip", "script": "bounded/b01_roundtrip.py"}]
+
+# nested dataclass / class values are serialised by the class's own parser: with the caller's dump settings, and what is stored is what the loader reads back
+from contracts.adapt_arms import dataclass_unit  # noqa: E402
+from contracts.class_type import class_type_unit  # noqa: E402
+UNITS += [dataclass_unit("C01"), class_type_unit("C01")]
